@@ -36,6 +36,5 @@ for m in muts:
     finally:
         shutil.rmtree(d, ignore_errors=True)
         for prop in m["props"]:
-            for sub in ("replay_target", "replay_crate", "typecheck_target", "typecheck_crate"):
-                shutil.rmtree(os.path.join(V, "out", prop, sub), ignore_errors=True)
+            shutil.rmtree(os.path.join(V, "out", prop + "_" + os.path.basename(d)), ignore_errors=True)
 json.dump(results, open(os.path.join(V, "out", "selftest_results.json"), "w"), indent=1)
